@@ -69,7 +69,7 @@ def run_route(ctx, st, case, route, backend):
         for c in p["constraints"]:
             s.ensure(progs.build(c, vars_))
     if case["keys"]:
-        s.add_answer_key([vars_[i] for i in case["keys"]])
+        ctx.count("c02.key_form.%d" % progs.register_keys(s, [vars_[i] for i in case["keys"]], len(repr(case)) + len(route)))
     ctx.current_case = {"case": case, "route": route}
     fired0 = st.fired
     try:
